@@ -45,7 +45,23 @@ func New[T any](ctx context.Context, cap int) (<-chan T, chan<- T) {
 		for {
 			select {
 			case <-ctx.Done():
-				close(in)
+				// values already accepted from the senders are still delivered
+				open := true
+				for more := true; more; {
+					select {
+					case x, ok := <-in:
+						if ok {
+							enq(&x, mq)
+						} else {
+							open, more = false, false
+						}
+					default:
+						more = false
+					}
+				}
+				if open {
+					close(in)
+				}
 				flush()
 				return
 
